@@ -100,6 +100,22 @@ def rule_e(res: Results, idx: Index) -> None:
                         stored_global = True
                     if isinstance(t, ast.Subscript) and isinstance(t.value, ast.Name) and t.value.id in (module_names | globs) and not any(d.kind != 'setitem' for d in du.defs.get(t.value.id, [])):
                         stored_global = True
+            # the session (or anything computed from it) is put into / taken from a module-level container anywhere in the builder
+            sess_names = {t.id for t in (st.targets if isinstance(st, ast.Assign) else []) if isinstance(t, ast.Name)}
+            for x in walk_no_nested(g.node):
+                if isinstance(x, ast.Assign) and any(isinstance(t, ast.Subscript) and isinstance(t.value, ast.Name) and t.value.id in (module_names | globs) for t in x.targets) \
+                        and (names_in(x.value) | du.closure(names_in(x.value))) & sess_names:
+                    stored_global = True
+                if isinstance(x, ast.Call) and isinstance(x.func, ast.Attribute) and x.func.attr in ("setdefault", "append", "update", "add", "__setitem__") and isinstance(x.func.value, ast.Name) \
+                        and x.func.value.id in (module_names | globs) and any((names_in(a_) | du.closure(names_in(a_))) & sess_names for a_ in list(x.args) + [k.value for k in x.keywords]):
+                    stored_global = True
+                if isinstance(x, ast.Return) and x.value is not None:
+                    for nm in names_in(x.value) | du.closure(names_in(x.value)):
+                        for v in du.values(nm):
+                            for y in ast.walk(v):
+                                if (isinstance(y, ast.Call) and isinstance(y.func, ast.Attribute) and y.func.attr in ("get", "pop", "setdefault") and isinstance(y.func.value, ast.Name) and y.func.value.id in (module_names | globs)) \
+                                        or (isinstance(y, ast.Subscript) and isinstance(y.value, ast.Name) and y.value.id in (module_names | globs) and isinstance(y.ctx, ast.Load)):
+                                    stored_global = True
             if stored_global:
                 res.violation("R-C18e", site, key, "the session is stored in module-level state and can be reused for a later call", g.qualname)
             else:
